@@ -248,6 +248,10 @@ GROUPS['pow2r'] = [
     A([x_, k_], z3.Implies(x_ > 0, (z3.ToReal(k_) <= log2(x_)) == (pow2r(z3.ToReal(k_)) <= x_)),
       [z3.MultiPattern(log2(x_), pow2r(z3.ToReal(k_)))]),
 ]
+GROUPS['pow2link'] = [
+    # integer and real powers of two agree on non-negative integer exponents
+    A([q_], z3.Implies(q_ >= 0, pow2r(z3.ToReal(q_)) == z3.ToReal(pow2(q_))), [pow2(q_)]),
+]
 GROUPS['cscale'] = [
     A([x_, y_, G_], cscale(x_, cscale(y_, G_)) == cscale(x_ * y_, G_), [cscale(x_, cscale(y_, G_))]),
     A([G_], cscale(1, G_) == G_, [cscale(1, G_)]),
